@@ -173,6 +173,29 @@ def gen_ops(ctx):
     return ops
 
 
+CFG_KEYS = ["signer", "peer", "adminCA", "adminClient", "server", "foreign"]   # private keys around a generated configuration
+
+
+def gen_cfg_ops(ctx):
+    """deployments built by the real configuration loader (round 3): every consumer, every private key that exists
+    around the configuration as signing key, with and without a peer listed in keymaster_public_keys_filename;
+    then storage lookups as a sequence across the record's signed expiry with the primary database up / timing out"""
+    ops = []
+    for peer in (0, 1):
+        for cons in CONSUMERS:
+            for key in CFG_KEYS:
+                ops.append("cfg %s %s %s %d -" % (cons, PURPOSE[cons], key, peer))
+    for cons in CONSUMERS:
+        for kind in KINDS:
+            if kind != PURPOSE[cons]:
+                ops.append("cfg %s %s %s 0 -" % (cons, kind, "adminCA" if not ctx.quick() else "signer"))
+    ops.append("cfg session session list 0 -")
+    ops.append("seq 3 300")
+    if not ctx.quick():
+        ops.append("seq 2 1200")
+    return ops
+
+
 def flat_val(v):
     if isinstance(v, bool) or isinstance(v, float) or isinstance(v, dict):
         return "o"
@@ -236,10 +259,11 @@ def run_harness_retry(ctx, ops, tries=6):
 def run(ctx):
     facts = c.regen(ctx)
     c.prove(ctx)
-    ops = gen_ops(ctx)
+    ops = gen_cfg_ops(ctx) + gen_ops(ctx)
     if ctx.replay:
         rp = json.load(open(ctx.replay))
-        ops = [v["replay"]["op"] for v in rp.get("violations", []) if "op" in v.get("replay", {})] or ops[:100]
+        ops = [v["replay"]["op"].split(" :: ")[0] for v in rp.get("violations", []) if "op" in v.get("replay", {})] or ops[:100]
+        ops = list(dict.fromkeys(ops))
     bases = ["base %s" % k for k in KINDS]
     impl, log, rc = run_harness_retry(ctx, bases + ops)
     if rc != 0 or len(impl) != len(bases) + len(ops):
@@ -283,24 +307,79 @@ def run(ctx):
     mops, jops, meta = [], [], []
     hist = {}
     unknown_keys = 0
+    cases = []      # (label, consumer, kind, sign label, garble, deployment keys, (alg, by, scheme), decision, kv, line)
+    cfg_hist = {}
+    seen_trust = set()
     for o, line in zip(ops, impl):
+        f = o.split()
+        if f[0] == "seq":
+            if not line.startswith("seq | "):
+                ctx.broken.append("harness answered %r for %r" % (line[:200], o))
+                continue
+            for step in line[6:].split(" ;; "):
+                sf = step.split()
+                skv = dict(x.split("=", 1) for x in sf[3:])
+                dec = skv["dec"].replace("-", " ", 1)
+                kvs = {"wire": skv["wire"], "now": skv["now"], "same": "1", "db": "0", "fx": "001" if dec.startswith("ok") else "000",
+                       "slots": "%s,1,%s,1,%s" % (hx(sf[0]), hx(sf[0]), skv["colexp"])}
+                label = "%s :: lookup %s of user %s, primary database %s, at now=%s (record signed exp=%s)" % (
+                    o, sf[1], sf[0], sf[2], skv["now"], skv["colexp"])
+                cases.append((label, "storage", "storage", "seq-" + sf[2], "-", DEPS["single"], SIGN["real"], dec, kvs, step))
+            continue
+        if f[0] == "cfg":
+            if line.startswith("cfgkeys "):
+                extra = set(line.split()[1].split(",")) - set(CFG_KEYS)
+                if extra:
+                    ctx.notes.append("private keys around the generated configuration that no cfg op signs with: %s" % sorted(extra))
+                continue
+            if line.startswith("cfg-skip"):
+                ctx.notes.append("%s: %s" % (o, line[:120]))
+                continue
+            if " | " not in line:
+                ctx.broken.append("harness answered %r for %r" % (line[:200], o))
+                continue
+            dec, rest = line.split(" | ", 1)
+            kv = dict(x.split("=", 1) for x in rest.split() if "=" in x)
+            if c.unhexs(kv["issuer"]) != ISSUER:
+                ctx.broken.append("loader-built deployment has issuer %r" % c.unhexs(kv["issuer"]))
+            # the deployment's keys are what the operator WROTE: the signer, and the listed peer
+            written = ["signer"] + (["peer"] if f[4] == "1" else [])
+            ids = {"signer": "1", "peer": "2"}
+            by = ids.get(f[3], str(20 + sorted(kv["keys"].split(",")).index(f[3])))
+            dep_keys = "1:rsa" + (",2:p256" if f[4] == "1" else "")
+            eff = [k for k in kv["eff"].split(",") if k]
+            if sorted(eff) != sorted(written) and (f[4], tuple(eff)) not in seen_trust:
+                seen_trust.add((f[4], tuple(eff)))
+                c.add_violation(ctx, "config-trust:" + ",".join(sorted(set(eff) - set(written)) or ["missing"]),
+                                "deployment loaded from a configuration file (signer%s; client_ca_filename = the generated admin CA) "
+                                "trusts token-signing keys %s, the configuration names %s" % (
+                                    " + one peer in keymaster_public_keys_filename" if f[4] == "1" else "", eff, written),
+                                {"op": o, "impl": line})
+            label = "%s :: loader-built deployment, %s artefact re-signed with the %s key (%s), configuration trusts %s" % (
+                o, f[2], f[3], kv["alg"], written)
+            cases.append((label, f[1], f[2], "cfg-" + f[3], "-", dep_keys, (kv["alg"], by, kv["alg"]), dec, kv, line))
+            hk = "%s:%s" % (f[3], dec.split()[0])
+            cfg_hist[hk] = cfg_hist.get(hk, 0) + 1
+            continue
         if line.startswith("bad-op") or line.startswith("harness-error") or " | " not in line:
             ctx.broken.append("harness answered %r for %r" % (line[:200], o))
             continue
-        f = o.split()
-        cons, dep, kind, mode, garble = f[1], f[2], f[3], f[4], f[5]
         dec, rest = line.split(" | ", 1)
         kv = dict(x.split("=", 1) for x in rest.split() if "=" in x)
+        if "MISMATCH" in rest or "INVALID" in rest:
+            ctx.broken.append("harness self-check failed: %s for %r" % (rest[-80:], o))
+        cases.append((o, f[1], f[3], f[4], f[5], DEPS[f[2]], SIGN[f[4]], dec, kv, line))
+    for o, cons, kind, mode, garble, dep_keys, (alg, by, sig), dec, kv, line in cases:
+        rest = line
         wire, unk = flat_wire(kv["wire"])
         unknown_keys += unk
         if wire is None:
             ctx.broken.append("harness fed a non-object payload for %r" % o)
             continue
-        alg, by, sig = SIGN[mode]
         if garble != "-" and kv["same"] != "1":
             by = "-"        # corrupted: no key made this signature over these bytes
         slots = kv["slots"].split(",")
-        head = "call %s %s 500000000 %s %s %s %s %s %s %s" % (cons, kv["now"], hx(ISSUER), DEPS[dep], " ".join(slots), alg, by, sig, wire)
+        head = "call %s %s 500000000 %s %s %s %s %s %s %s" % (cons, kv["now"], hx(ISSUER), dep_keys, " ".join(slots), alg, by, sig, wire)
         # implementation's decision in the model's vocabulary
         idec = dec
         if cons == "upgrade" and dec.startswith("ok "):
@@ -317,8 +396,6 @@ def run(ctx):
         jops.append("%s %s fx=%s" % (head, "acc" if dec.startswith("ok") else "rej", kv["fx"]))
         if kv["db"] != "0":
             c.add_violation(ctx, "db-changed:%s" % cons, "consumer %s changed the database" % cons, {"op": o, "impl": line})
-        if "MISMATCH" in rest or "INVALID" in rest:
-            ctx.broken.append("harness self-check failed: %s for %r" % (rest[-80:], o))
         cls = "%s<-%s:%s" % (cons, kind, dec.split()[0] + ("" if dec.startswith("ok") else " " + dec.split()[1]))
         hist[cls] = hist.get(cls, 0) + 1
     model = c.run_driver(ctx, "model", mops)
@@ -351,6 +428,8 @@ def run(ctx):
         "outcome_histogram": dict(sorted(hist.items())),
         "consumers": {k: sum(1 for m in meta if m[1] == k) for k in CONSUMERS},
         "sign_modes": {k: sum(1 for m in meta if m[3] == k) for k in SIGN},
+        "loader_built_deployment_ops": sum(cfg_hist.values()), "loader_built_by_signing_key": dict(sorted(cfg_hist.items())),
+        "storage_sequence_lookups": sum(1 for m in meta if m[3].startswith("seq-")),
         "corrupted": sum(1 for m in meta if m[4] != "-"),
         "corrupted_but_identical_bytes": sum(1 for m in meta if m[4] != "-" and m[6]["same"] == "1"),
         "unknown_json_keys_dropped": unknown_keys,
